@@ -107,6 +107,8 @@ pub proof fn axiom_keycode_total_order()
   ensures vstd::relations::total_ordering(ord_leq_fn::<KeyCode>())
 {}
 //#endif
+// the byte length of a String: no relation to the number of characters is stated (none holds)
+pub assume_specification [std::string::String::len] (_0: &std::string::String) -> usize;
 // `count` consumes the iterator and returns how many items were left (std documentation); vstd knows that `s.chars()` has all of `s@` left
 pub assume_specification<'a> [<std::str::Chars<'a> as std::iter::Iterator>::count] (c: std::str::Chars<'a>) -> (r: usize)
   ensures r == vstd::std_specs::iter::IteratorSpec::remaining(&c).len();
